@@ -807,8 +807,17 @@ def compare_step(tr, j, answer, rel=1e-9):
     r = {'pos': parse_list(w[1]), 'speed': parse_list(w[2]), 'acc': parse_list(w[3]), 'dT': parse_list(w[4]),
          'lT': parse_list(w[5]), 'T': parse_list(w[6]), 'pwm': parse_num(w[7]),
          'cur': None if w[8] == '-' else parse_num(w[8]), 'locked': w[9] == '1'}
+    # close to the no-load speed the motor torque T_max (1 - w / (D w0)) cancels: its relative rounding error — and that of
+    # everything computed from it — is amplified by (stall torque) / |motor torque|
+    amp = 1.0
+    Tm = abs(tr['els'][0]['driving torque'][j])
+    stall = abs(tr['motor']['tmax'])
+    if 0 < Tm < stall:
+        amp = min(stall / Tm, 1e6)
     for mk, var in VARS6:
         sc = max([abs(e[var][j]) for e in tr['els']] + [abs(e[var][max(j - 1, 0)]) for e in tr['els']] + [1e-9])
+        if mk in ('dT', 'T', 'acc'):
+            sc *= amp
         if mk in ('T',):
             sc = max([sc] + [abs(e['driving torque'][j]) for e in tr['els']] + [abs(e['load torque'][j]) for e in tr['els']])
         if mk == 'acc':
@@ -828,7 +837,7 @@ def compare_step(tr, j, answer, rel=1e-9):
         return f"instant {j}: pwm {tr['els'][0]['pwm'][j]} vs model {r['pwm']}"
     cur = tr['els'][0].get('electric current')
     if cur is not None and r['cur'] is not None:
-        sc = max(abs(cur[j]), abs(r['cur']), 1e-9)
+        sc = max(abs(cur[j]), abs(r['cur']), 1e-9) * amp
         if not abs(cur[j] - r['cur']) <= 1e-8 * sc:
             return f"instant {j}: current {cur[j]} vs model {r['cur']}"
     if tr['locked'][j] != r['locked']:
